@@ -31,7 +31,13 @@ Definition proc_init (n : net) : proc :=
 
 (* ------------------------------------------------------------------ *)
 (* the six objectives ("flops", "max", "size", "write", "combo[-f]", "limit[-f]") *)
-Inductive objective := OFlops | OMax | OSize | OWrite | OCombo (f : Z) | OLimit (f : Z).
+(* OComboQ / OLimitQ num den: a custom factor k = num/den (a float in Python: 'combo-0.5', 'limit-2.5').
+   The model keeps exact integers by scaling every score by den (> 0):
+     den * (flops + k * size) = den * flops + num * size,   den * max(flops, k * size) = max(den * flops, num * size);
+   all comparisons of the DP (sieve against den * cost_cap, strict < replacement) are scale invariant,
+   so the tables, the call sequence and the returned path are those of the float run. *)
+Inductive objective := OFlops | OMax | OSize | OWrite | OCombo (f : Z) | OLimit (f : Z)
+                     | OComboQ (num den : Z) | OLimitQ (num den : Z).
 
 Definition entry := (legs * (Z * list (N * N)))%type.      (* (legs, score, bitpath) *)
 Definition e_legs (e : entry) : legs := fst e.
@@ -120,6 +126,8 @@ Definition con_cost (o : objective) (tl : legs) (iscore jscore : Z) : legs * Z :
    | OWrite => iscore + jscore + size
    | OCombo f => iscore + jscore + (cost + f * size)
    | OLimit f => iscore + jscore + Z.max cost (f * size)
+   | OComboQ n d => iscore + jscore + (d * cost + n * size)
+   | OLimitQ n d => iscore + jscore + Z.max (d * cost) (n * size)
    end)%Z.
 
 Variable obj : objective.
@@ -311,6 +319,8 @@ Definition step_cost (o : objective) (S1 S2 : N) : Z :=
   | OSize | OWrite => step_size S1 S2
   | OCombo f => step_flops S1 S2 + f * step_size S1 S2
   | OLimit f => Z.max (step_flops S1 S2) (f * step_size S1 S2)
+  | OComboQ n d => d * step_flops S1 S2 + n * step_size S1 S2
+  | OLimitQ n d => Z.max (d * step_flops S1 S2) (n * step_size S1 S2)
   end%Z.
 Definition combine_sc (o : objective) (a b s : Z) : Z :=
   match o with
@@ -355,7 +365,11 @@ End Spec.
 
 (* the factor of combo / limit is non-negative *)
 Definition obj_ok (o : objective) : Prop :=
-  match o with OCombo f | OLimit f => (0 <= f)%Z | _ => True end.
+  match o with
+  | OCombo f | OLimit f => (0 <= f)%Z
+  | OComboQ n d | OLimitQ n d => (0 <= n)%Z /\ (0 <= d)%Z
+  | _ => True
+  end.
 
 (* t is a binary contraction tree over exactly the leaf set S (bitmask), leaves < n *)
 Inductive vtree (n : nat) : tree -> N -> Prop :=
@@ -419,3 +433,94 @@ Definition connected_prop (nodes : list legs) (nix : nat) : Prop :=
     (exists i, i < length nodes /\ N.testbit S (N.of_nat i) = false) ->
     exists j x, j < length nodes /\ N.testbit S (N.of_nat j) = false /\ x < nix /\
                 0 < cnt nodes S x /\ 0 < leg_count x (nth j nodes []).
+
+(* ------------------------------------------------------------------ *)
+(* parse_minimize_for_optimal (lines 268-309): the exact names first, then the regular expression
+   NAME DASHES FACTOR (NAME one of flops size write combo limit, DASHES any number of '-', FACTOR
+   optional: digits, optionally a '.', optionally more digits) with fullmatch; only combo / limit survive; the
+   custom factor float(custom_factor) is kept exactly as digits / 10^(number of fractional digits);
+   no custom factor: 64.  ASCII digits only. *)
+Require Import Ascii String.
+Fixpoint strip_prefix (pre s : list ascii) : option (list ascii) :=
+  match pre, s with
+  | [], _ => Some s
+  | a :: pre', b :: s' => if Ascii.eqb a b then strip_prefix pre' s' else None
+  | _ :: _, [] => None
+  end.
+Fixpoint drop_dashes (s : list ascii) : list ascii :=
+  match s with
+  | a :: s' => if Ascii.eqb a "-"%char then drop_dashes s' else s
+  | [] => []
+  end.
+Definition digit_of (a : ascii) : option Z :=
+  let k := nat_of_ascii a in
+  if (48 <=? k) && (k <=? 57) then Some (Z.of_nat (k - 48)) else None.
+(* digits*: returns (value so far, number of digits read, rest) *)
+Fixpoint read_digits (acc : Z) (cnt : nat) (s : list ascii) : Z * nat * list ascii :=
+  match s with
+  | a :: s' => match digit_of a with
+               | Some d => read_digits (acc * 10 + d) (S cnt) s'
+               | None => (acc, cnt, s)
+               end
+  | [] => (acc, cnt, [])
+  end.
+(* the optional FACTOR at the end of the string: None = no match; Some None = empty; Some (Some (num, den)) *)
+Definition read_factor (s : list ascii) : option (option (Z * Z)) :=
+  match s with
+  | [] => Some None
+  | _ =>
+      let '(v, c, r) := read_digits 0 0 s in
+      if Nat.eqb c 0 then None
+      else match r with
+           | [] => Some (Some (v, 1%Z))
+           | a :: r' =>
+               if Ascii.eqb a "."%char then
+                 let '(v2, c2, r2) := read_digits v 0 r' in
+                 match r2 with [] => Some (Some (v2, (10 ^ Z.of_nat c2)%Z)) | _ => None end
+               else None
+           end
+  end.
+Definition str_eqb (a b : list ascii) : bool := list_eqb Ascii.eqb a b.
+Definition parse_minimize (str : string) : option objective :=
+  let s := list_ascii_of_string str in
+  if str_eqb s (list_ascii_of_string "flops"%string) then Some OFlops
+  else if str_eqb s (list_ascii_of_string "max"%string) then Some OMax
+  else if str_eqb s (list_ascii_of_string "size"%string) then Some OSize
+  else if str_eqb s (list_ascii_of_string "write"%string) then Some OWrite
+  else
+    let try_kind (name : string) := strip_prefix (list_ascii_of_string name) s in
+    let with_factor (rest : list ascii) (mk0 : objective) (mk : Z -> Z -> objective) :=
+      match read_factor (drop_dashes rest) with
+      | Some None => Some mk0
+      | Some (Some (n, d)) => Some (mk n d)
+      | None => None
+      end in
+    match try_kind "combo"%string with
+    | Some rest => with_factor rest (OCombo 64) OComboQ
+    | None =>
+        match try_kind "limit"%string with
+        | Some rest => with_factor rest (OLimit 64) OLimitQ
+        | None => None   (* flops-.. / size-.. / write-.. match the regex but are rejected; anything else does not match *)
+        end
+    end.
+(* the weight as a fraction, for comparison with the float the code holds *)
+Definition weight_of (o : objective) : option (Z * Z) :=
+  match o with
+  | OCombo f | OLimit f => Some (f, 1%Z)
+  | OComboQ n d | OLimitQ n d => Some (n, d)
+  | _ => None
+  end.
+Definition kind_of (o : objective) : nat :=
+  match o with OFlops => 0 | OMax => 1 | OSize => 2 | OWrite => 3 | OCombo _ | OComboQ _ _ => 4 | OLimit _ | OLimitQ _ _ => 5 end.
+(* parse str is of kind k with weight p/q (q > 0), where p/q is the double the code holds: equal to the
+   decimal weight of the model, or its nearest double (relative error at most 2^-52) *)
+Definition parse_agrees (str : string) (k : nat) (p q : Z) : bool :=
+  match parse_minimize str with
+  | Some o => Nat.eqb (kind_of o) k &&
+              match weight_of o with
+              | Some (n, d) => (0 <? d)%Z && ((n * q =? p * d)%Z
+                                              || (Z.abs (n * q - p * d) * 2 ^ 52 <=? p * d)%Z)
+              | None => true
+              end
+  | None => false
+  end.
